@@ -63,7 +63,18 @@ class Prop(BaseProp):
 
     def module(self, rng):
         b = Builder(rng, p_doc=0.6, max_depth=3, max_items=6)
-        return b.module(module_doc=rng.random() < 0.3, module_name=rng.choice(["", "modN0Z"]))
+        mod = b.module(module_doc=rng.random() < 0.3, module_name=rng.choice(["", "modN0Z"]))
+        # free-form doccomment bodies (the project documents the leaderless style): leaderless lines with their own
+        # relative indentation, leaders preceded by extra blanks, '#' without a following space, tabs after the leader
+        for it in mod.walk():
+            if it.doc is not None and it.kind != "dangling" and rng.random() < 0.3:
+                raw = []
+                for k in range(rng.randint(1, 5)):
+                    t = f"text {{L{it.uid}.{k}}} more"
+                    raw.append(rng.choice([t, "   " + t, "      deeper " + t, "# " + t, "#" + t, "  # " + t, "#    " + t, "#\t" + t,
+                                           "", "#", " #", "\t" + t, "- item " + t, "#[ " + t, "    # " + t + " #"]))
+                it.raw_lines = raw
+        return mod
 
     def run_case(self, idx, rng):
         res = CaseResult()
